@@ -502,7 +502,7 @@ pub fn c09_gen(rng: &mut Rng, n: usize) -> Vec<Case> {
             let (a, b) = (rng.below(nodes) as u32, rng.below(nodes) as u32);
             if !init.edges.iter().any(|e| e.0 == a && e.1 == b) { init.edges.push((a, b, if rng.chance(70) { vec![("keep".to_string(), GV::Int(1))] } else { vec![] })); }
         } }
-        let src = if rng.chance(60) { CORPUS[2 + rng.below(2)].to_string() } else { gen_source(rng) };
+        let src = (if rng.chance(60) { CORPUS[2 + rng.below(2)].to_string() } else { gen_source(rng) }) + if rng.chance(50) { "v = a.b.c\n" } else { "" };
         let nruns = 1 + rng.below(3);
         let mut runs = Vec::new();
         let mut cur_nodes = nodes;
@@ -513,6 +513,14 @@ pub fn c09_gen(rng: &mut Rng, n: usize) -> Vec<Case> {
             let p = gen_program(rng, &opts);
             let mut text = p.text();
             if rng.chance(55) { let ng = (0..opts.node_globals).filter(|i| text.contains(&format!("global pn{}", i))).count(); text.push_str(&churn_stanza(rng, ng)); }
+            // single assignment with SYNTAX-NODE values: two different nodes of the same kind that start at the same place (outer and
+            // inner node of `a.b.c`) are two values — the second assignment is a conflict; the same node twice is accepted
+            if rng.chance(15) {
+                text.push_str(*rng.pick(&[
+                    "\n(attribute object: (attribute) @zin) @zout {\n  node zz\n  attr (zz) who = @zout\n  attr (zz) who = @zin\n}\n",
+                    "\n(attribute object: (attribute) @zin) @zout {\n  node zz\n  attr (zz) who = @zout\n  attr (zz) who = @zout\n  edge zz -> zz\n  attr (zz -> zz) via = @zin\n  attr (zz -> zz) via = @zout\n}\n",
+                    "\n(attribute object: (attribute) @zin) @zout {\n  node zz\n  attr (zz) who = @zin, same = @zin\n  attr (zz) same = @zin\n}\n"]));
+            }
             runs.push((rng.chance(50), text, p.supplied));
             cur_nodes += 1;     // not exact; only used to decide how many node globals may be declared (bounded by existing nodes)
             cur_nodes = cur_nodes.min(nodes.max(1));
